@@ -175,6 +175,7 @@ pub struct St {
 pub enum Op {
     Insert(usize),
     Delete(usize),
+    Clear,
 }
 
 pub struct CfModel {
@@ -309,6 +310,7 @@ impl Model for CfModel {
         }
         let n = self.cfg.n_elements();
         let mut v: Vec<Op> = (0..n).map(Op::Insert).collect();
+        v.push(Op::Clear);
         if self.with_delete {
             for e in 0..n {
                 match self.mode {
@@ -377,6 +379,15 @@ impl Model for CfModel {
                         kind = 2;
                     }
                 }
+            }
+            Op::Clear => {
+                if let Err(p) = mccore::panics::catch(|| s.f.clear()) {
+                    return Err(viol("C19", format!("{} clear panics", cfg.sig()), format!("clear() panicked: {}", p)));
+                }
+                s.cnt.iter_mut().for_each(|c| *c = 0);
+                s.hist.clear();
+                vs.extend(self.check_state_all(s, "after clear()"));
+                kind = 5;
             }
             Op::Delete(e) => {
                 let c = self.classes.class_of[e];
@@ -536,7 +547,7 @@ pub fn pair_sweep(model: &CfModel, lefts: &[St], rights: &[St], threads: usize) 
                                                 st.ok += 1;
                                                 let mut merged = St { f: u, cnt: a.cnt.iter().zip(b.cnt.iter()).map(|(x, y)| x + y).collect(), tainted: false, off: 0, hist: vec![] };
                                                 merged.hist.clear();
-                                                if let Err(v) = model.check_state(&merged, "after a.union(&b) = Ok (reference = multiset sum)") {
+                                                for v in model.check_state_all(&merged, "after a.union(&b) = Ok (reference = multiset sum)") {
                                                     let p = if v.signature.contains("false-negative") { "C01" } else { "C06" };
                                                     push(p, format!("{} union result: {}", cfg.sig(), v.signature), v.message, "a.union(&b) = Ok, then observe a");
                                                 }
